@@ -5,8 +5,11 @@ Waasmaier-Kirfel coefficient file itself, interpolates with bisect, sums the
 compound SLD by the documented equation and evaluates f0 itself.  Metamorphic
 relations (energy/wavelength, scalar/vector, density linearity, isotope
 independence with an own mass ratio), range postconditions attached in-process
-to Xray.scattering_factors and mirror_reflectivity, sys.monitoring reach
-counters on the anchored functions."""
+to Xray.scattering_factors and mirror_reflectivity, an input-unchanged guard on
+every public x-ray call (ndarray / list / dict arguments are the same after the
+call as before), array objects reused across calls, atoms and compounds (one Q
+grid and one energy / wavelength grid per worker, buffers refilled in place),
+sys.monitoring reach counters on the anchored functions."""
 import math
 import random
 import re
@@ -17,15 +20,21 @@ RULE = ('factor cases: one per (tabulated element, point family) - every table n
         'thorough, a seeded sample in quick), log-uniform energies by energy= and by wavelength=, absorption-edge '
         'neighbourhoods, out-of-range energies - for the element, each of its ions and sampled isotope ions; '
         'compound cases: random compounds (1-5 distinct tabulated elements, isotopes, ions, dict or formula-string '
-        'form) x density x energy with all relations; mirror cases: energy x angle grids with roughness; f0 cases: '
-        'each of the 211 coefficient entries and every element/ion of the table.  distinct = distinct (element, '
+        'form; about 15 % hold one element in several charge states and/or isotopes: neutral + ion, two ions, '
+        'isotope + ion of another isotope, the same atom twice) x density x energy with all relations, plus a '
+        'fixed energy / wavelength array shared by all compounds of a worker; mirror cases: energy x angle grids '
+        'with roughness; f0 cases: each of the 211 coefficient entries and every element/ion of the table, all on '
+        'one shared Q array; vector calls are repeated with the same array object and with the object refilled '
+        'in place.  distinct = distinct (element, '
         'table segment) pairs compared against the interpolation, distinct (atom-key set, energy bin of 0.01 decade) '
         'pairs for compounds and mirrors, distinct coefficient entries and (Z, charge) pairs for f0; a point is '
         'non-trivial only if a value was compared with the reference (points inside a non-monotone table window '
         'or with an untabulated f1 are counted separately and do not count)')
 TECHNIQUE = ('runtime monitoring: reference-model monitor (independent table readers, own interpolation, documented '
-             'equations), metamorphic relations between executions, in-process postconditions on '
-             'Xray.scattering_factors and mirror_reflectivity, sys.monitoring reach counters')
+             'equations), metamorphic relations between executions (including repeated and refilled argument '
+             'objects), in-process postconditions on Xray.scattering_factors and mirror_reflectivity, in-process '
+             'input-unchanged guards on f0, scattering_factors, sld, xray_sld, index_of_refraction, '
+             'mirror_reflectivity and the conversions, sys.monitoring reach counters')
 LEVEL_TEXT = ('Every node of all 92 scattering-factor tables, segment midpoints, absorption-edge neighbourhoods and '
               'out-of-range energies are pushed through the public calls and compared with an independent reader and '
               'interpolator; random compounds, refraction indices, mirror grids and all 211 form-factor entries are '
@@ -42,7 +51,9 @@ ASSUMPTIONS = ['the .nff rows and f0_WaasKirf.dat coefficients are the specifica
                'tolerance: 1e-10 of the bracketing ordinates plus the change of the interpolant over a few ulp of the '
                'energy (keV/eV and energy/wavelength conversions round)',
                'atom masses from the independent reader pvmon/ref/masses.py; an ion weighs its atom less q electrons',
-               'the natural_density= route for formulas containing ions is judged by C12 (finding D10), not here']
+               'the natural_density= route for formulas containing ions is judged by C12 (finding D10), not here',
+               'a query leaves its array / list / dict arguments unchanged (a changed argument makes the results '
+               'of the caller\'s later calls depend on history, which the scalar/vector and table clauses exclude)']
 
 TWENTYFOUR_PI = 24 * math.pi
 _state = {}
@@ -533,6 +544,25 @@ def _repeat_call(ctx, bud, text, first, again, **detail):
     return True
 
 
+def _refilled_call(ctx, bud, text, arr, first, call, **detail):
+    """The caller's buffer refilled: the array object of an earlier call gets new contents (here the same
+    values in reverse order) and is passed again; every function judged here works point by point, so the
+    answer is the earlier one reversed.  The buffer is restored afterwards."""
+    firsts = first if isinstance(first, tuple) else (first,)
+    keep = arr.copy()
+    arr[:] = keep[::-1]
+    try:
+        again = call(arr)
+    finally:
+        arr[:] = keep
+    agains = again if isinstance(again, tuple) else (again,)
+    ctx.evaluated(1, 'refilled_same_object')
+    if len(firsts) != len(agains) or not all(_same_bits(a[::-1], b) for a, b in zip(firsts, agains)):
+        bud.violation('%s: the array object of an earlier call, refilled in place with the same values in reverse '
+                      'order, gave %.300r; the earlier result reversed is %.300r'
+                      % (text, again, tuple(a[::-1] for a in firsts)), kind='refilled-buffer', **detail)
+
+
 def _atom(key):
     from .. import atoms
     return atoms.lookup(_state['pt'].elements, tuple(key))
@@ -636,9 +666,20 @@ def _sweep(ctx, bud, Z, atom, energies, how, scalar=True, wavelength=False, buf=
             _point(ctx, bud, Z, es[0], float(s1), float(s2), how + ' (scalar wavelength=)', ulps=64, atom=name)
             _repeat_call(ctx, bud, '%s.xray.scattering_factors(wavelength=<array of %d>) %s' % (name, len(wl), how),
                          (w1, w2), atom.xray.scattering_factors(wavelength=wlarr), Z=Z)
-    _repeat_call(ctx, bud, '%s.xray.scattering_factors(energy=<array of %d>) %s' % (name, len(energies), how),
-                 (v1, v2), atom.xray.scattering_factors(energy=arr), Z=Z)
+    text = '%s.xray.scattering_factors(energy=<array of %d>) %s' % (name, len(energies), how)
+    if _repeat_call(ctx, bud, text, (v1, v2), atom.xray.scattering_factors(energy=arr), Z=Z) and \
+            not any(xr.table(Z).excluded(e) for e in energies):
+        # (numpy.interp inside a non-monotone window depends on the neighbouring points: not judged)
+        _refilled_call(ctx, bud, text, arr, (v1, v2), _EnergyCall(atom), Z=Z)
     return 'ok'
+
+
+class _EnergyCall(object):
+    def __init__(self, atom):
+        self.atom = atom
+
+    def __call__(self, arr):
+        return self.atom.xray.scattering_factors(energy=arr)
 
 
 def _energies(tab, mode, sample, seed):
@@ -1062,7 +1103,17 @@ def check_compound(ctx, case):
 
     _compound_grids(ctx, bud, case, comp, obj, name, rho)
     if form != 'npfloat' and not bud.n:
-        _repeat_call(ctx, bud, vector_text, gv, xsf.xray_sld(obj, density=rho, energy=arg))
+        same = _repeat_call(ctx, bud, vector_text, gv, xsf.xray_sld(obj, density=rho, energy=arg))
+        if same and form == 'array' and not any(xr.table(k[0]).excluded(e) for k in comp for e in es):
+            _refilled_call(ctx, bud, vector_text, arg, gv, _SldCall(xsf, obj, rho))
+
+
+class _SldCall(object):
+    def __init__(self, xsf, obj, rho):
+        self.xsf, self.obj, self.rho = xsf, obj, rho
+
+    def __call__(self, arr):
+        return self.xsf.xray_sld(self.obj, density=self.rho, energy=arr)
 
 
 # one energy array and one wavelength array per worker, handed to every compound (a user's grid looped over
@@ -1242,6 +1293,8 @@ def _f0_compare(ctx, bud, text, fn, entry, electrons=None):
         bud.violation('%s: 2x2 Q array [[0, 1], [2, 100]]: f0(Q=1) = %r, the coefficients of %s give %r'
                       % (text, float(g2[0, 1]), entry, cm.f0(entry, 1.0)), kind='f0.value', Q=1.0)
     _repeat_call(ctx, bud, text + ' with the Q grid %r' % (qs,), vec, fn(qarr))
+    qtmp = np.array(qs)
+    _refilled_call(ctx, bud, text + ' with the Q values %r' % (qs,), qtmp, np.asarray(fn(qtmp)), fn)
 
 
 def check_f0_entry(ctx, case):
